@@ -14,7 +14,7 @@ Program AST (JSON; this is the replay format) -- see DESIGN.md section 4.1:
     Struct  = null | ["T"|"L", [Struct..]] | ["D", [[key, Struct]..]] | Leaf
     Leaf    = ["task", Task] | ["ref", tid] | ["item", kind, arg, "ok"|"err"|"unset", uid]
             | ["ditem", name, result, uid] | ["const", v] | ["nonef"] | ["errfut", uid]
-            | ["lazy", "ok"|"raise", uid] | ["bad", v]
+            | ["lazy", "ok"|"raise", uid] | ["slazy", "ok"|"raise", k]  (one Future object per k, wherever it appears) | ["bad", v]
     Ctx     = ["rec", cid] | ["ov", sv, val] | ["attr", obj, val] | ["na", cid]
             | ["fail", cid, resume_at|null, pause_at|null]
 
@@ -305,6 +305,9 @@ class Env(object):
         self.check_c06 = False
         self.flush_snapshots = []
         self.keep = []         # futures kept alive for the whole case
+        self.shared_lazy = {}  # k -> the one Future object of ["slazy", mode, k]
+        self.lazy_runs = {}    # k -> times its provider ran
+        self.lazy_notes = {}   # k -> times its on_computed subscriber was notified
         self.deliveries = {}   # exception key -> tids it was thrown into
         self.delivered_multi = 0
         self.delivered_caught = 0
@@ -508,6 +511,21 @@ def build(env, s, futs, me, fresh):
             def prov():
                 raise e
             f = Future(prov)
+    elif tag == "slazy":
+        f = env.shared_lazy.get(s[2])
+        if f is None:
+            k, mode = s[2], s[1]
+            e = env.exc(("slazy", k)) if mode == "raise" else None
+
+            def prov():
+                env.lazy_runs[k] = env.lazy_runs.get(k, 0) + 1
+                if env.lazy_runs[k] > 1:
+                    env.v("C10.once", "the provider of Future %r ran %d times" % (k, env.lazy_runs[k]))
+                if e is not None:
+                    raise e
+                return ["slazy", k]
+            f = env.shared_lazy[k] = Future(prov)
+            f.on_computed.subscribe(lambda fut: env.lazy_notes.__setitem__(k, env.lazy_notes.get(k, 0) + 1))
     elif tag == "bad":
         return s[1]
     else:
